@@ -445,6 +445,24 @@ def run_shard(spec_, res):
         except Exception as e:
             res.count("foreign_encoding_failed")
             res.hist("foreign_encoding_failed_why", workload.exc_key(e))
+    # instruments in the older record layouts (no signature, no envelope chunks, longer / shorter records): files as SunVox wrote
+    # them years ago
+    try:
+        from . import c16
+        lrng = random.Random(spec_["seed"] * 19 + spec_["shard"])
+        lchunks = c16.fixture_chunks()
+        seen_kinds = set()
+        for k in range(60):
+            kind, lraw, _exp = c16.make_variant(lchunks, lrng)
+            if kind in seen_kinds and len(seen_kinds) < 6 and tier == "quick":
+                continue                    # (quick tier: one file of every kind per shard)
+            seen_kinds.add(kind)
+            sources.append((f"legacy-sampler:{kind}", lraw, {"legacy_variant": kind}))
+            res.hist("legacy_sampler_sources", kind)
+            if (tier == "quick" and len(seen_kinds) >= 6) or len(sources) > 400:
+                break
+    except Exception:
+        res.count("legacy_sources_unavailable")
     for origin, raw, desc in sources:
         cycle(res, raw, origin.split(":")[0], dict(desc, origin=origin, mutation=None))
         nm = spec_["mutations"] if origin.startswith("fixture") else max(2, spec_["mutations"] // 6)
